@@ -184,3 +184,29 @@ def toFloat64Val (v : Val) : Option Float :=
   | _, _ => none
 
 end ExprModel
+
+namespace ExprModel
+
+/-- rank "by width" as the property text words it: unsigned kinds by width, then signed kinds by width, then
+    float32, float64 — with the platform-sized `uint`/`int` (64 bits) placed by their width, below the
+    explicitly sized 64-bit kind.  The code (helpers and `typeWeight`) instead puts `uint` and `int` FIRST in
+    their group (`Kind.rank`). -/
+def Kind.rankW : Kind → Nat
+  | .uint8 => 0 | .uint16 => 1 | .uint32 => 2 | .uint => 3 | .uint64 => 4
+  | .int8 => 5 | .int16 => 6 | .int32 => 7 | .int => 8 | .int64 => 9
+  | .float32 => 10 | .float64 => 11
+
+def Kind.maxRankW (a b : Kind) : Kind := if a.rankW > b.rankW then a else b
+
+/-- the promotion rule with the by-width ranking -/
+def refSemW (h : Helper) (a b : Val) : Except ArithErr Val :=
+  match armTypeOf a, armTypeOf b with
+  | some (some ka), some (some kb) =>
+    if h.noFloat && (ka.isFloat || kb.isFloat) then .error .noArm
+    else
+      let K := Kind.maxRankW ka kb
+      applyOp h.op (if ka = K then a else conv K a) (if kb = K then b else conv K b)
+  | some none, some none => if h.hasString then applyOp h.op a b else .error .noArm
+  | _, _ => .error .noArm
+
+end ExprModel
